@@ -170,7 +170,7 @@ def _as_2400(p, rnd):
 
 
 def classify(case, rej, events):
-    if rej["op"] in ("IterNext", "IterStop"):
+    if rej["op"] in ("IterNext", "IterStop") and rej["clause"].startswith("known:"):
         return recur.known_class(case["rec"])
     return None
 
